@@ -1,7 +1,7 @@
 /-
 `DSD_Complex.__init__` as translated from the source is the model's `construct` (continued: the theorem itself).
 -/
-import DsdVerif.Lemmas.PyLegacyInit
+import DsdVerif.Lemmas.PyLegacyInitName
 
 set_option linter.unusedSimpArgs false
 set_option linter.unusedVariables false
@@ -17,6 +17,15 @@ def InitOk (b : LObj) (r : Except Err Unit × DSD_ComplexR.Self) (m : LReg × Ex
   | (R', .error e) => r.1 = .error (errOfR e) ∧ r.2.cls_ID = R'.ID ∧ r.2.cls_NAMES = R'.NAMES ∧
       r.2.cls_MEMORY = (ofLR R' b).cls_MEMORY
 
+/-- closes the goal of a refused construction after `simp only [InitOk]` -/
+macro "close_refused" : tactic => `(tactic| first
+  | exact ⟨rfl, rfl, rfl, rfl⟩
+  | (refine ⟨?_, ?_, ?_, ?_⟩ <;> first | rfl | trivial)
+  | (refine ⟨?_, ?_, ?_⟩ <;> first | rfl | trivial)
+  | (refine ⟨?_, ?_⟩ <;> first | rfl | trivial)
+  | rfl
+  | trivial)
+
 theorem lastChar_eq (pfx : String) (hp : pfx ≠ "") :
     ∃ c, Py.LegI_lastChar pfx = .ok c ∧ Py.LegI_isdigit c = endsWithDigit pfx := by
   unfold Py.LegI_lastChar endsWithDigit Py.LegI_isdigit
@@ -25,7 +34,7 @@ theorem lastChar_eq (pfx : String) (hp : pfx ≠ "") :
   | none =>
     exfalso; apply hp
     have : pfx.toList = [] := List.getLast?_eq_none_iff.mp h
-    rw [← String.ofList_toList (s := pfx), this]; rfl
+    rw [← String.ofList_toList (s := pfx), this]
 
 theorem exec_init (R : LReg) (b : LObj) (seq : List String) (sst : List Char) (name pfx : String) (mc : Bool)
     (hU0 : (R.MEMORY.map (·.1)).Nodup) :
@@ -40,13 +49,13 @@ theorem exec_init (R : LReg) (b : LObj) (seq : List String) (sst : List Char) (n
     simp only [exec_ite, exec_bind, exec_get, exec_pure, exec_lift, exec_monadLift, exec_modify, exec_throw, hn', if_true]
 
     -- the length check
-    by_cases hl : seq.length = sst.length
-    case neg =>
+    by_cases hl : seq.length ≠ sst.length
+    case pos =>
       have hl' : (seq.length != sst.length) = true := by simpa using hl
-      simp only [hl', if_true, exec_throw, hl, ne_eq, not_false_eq_true, InitOk]
-      exact ⟨rfl, rfl, rfl, rfl⟩
+      simp only [hl', if_true, exec_throw, if_pos hl, InitOk]
+      close_refused
     have hl' : (seq.length != sst.length) = false := by simpa using hl
-    simp only [hl', Bool.false_eq_true, if_false, hl, ne_eq, not_true_eq_false]
+    simp only [hl', Bool.false_eq_true, if_false, if_neg hl]
     cases mc with
     | false =>
       simp only [Bool.false_eq_true, if_false, exec_pure, InitOk]
@@ -57,23 +66,25 @@ theorem exec_init (R : LReg) (b : LObj) (seq : List String) (sst : List Char) (n
       rw [exec_canonical_form]
       rcases hcf : (mk0 b.id name seq sst true).canonicalForm R with ⟨o1, r⟩
       cases r with
-      | error e => simp only [canonAns, InitOk]; exact ⟨rfl, rfl, rfl, rfl⟩
+      | error e => simp only [canonAns, InitOk]; close_refused
       | ok c =>
         have hc1 := canonicalForm_ok _ _ _ _ hcf
         simp only [canonAns]
         have en : (ofLR R o1).cls_NAMES = R.NAMES := rfl
         have enm : (ofLR R o1)._name = o1.name := rfl
         have hnm : o1.name = name := by
-          have := LgL.canonicalForm_name R (mk0 b.id name seq sst true) o1 (.ok c) hcf
-          exact this
+          have := canonicalForm_name R (mk0 b.id name seq sst true)
+          rw [hcf] at this; exact this
         simp only [en, enm, hnm, Py.dictHas]
         cases hlk : R.NAMES.lookup name with
-        | some x => simp only [Option.isSome_some, Bool.not_true, Bool.false_eq_true, if_false, if_true, InitOk]; exact ⟨rfl, rfl, rfl, rfl⟩
+        | some x => simp only [Option.isSome_some, Bool.not_true, Bool.false_eq_true, if_false, if_true, InitOk]; close_refused
         | none =>
           have hab : Py.dictHas R.NAMES name = false := by unfold Py.dictHas; rw [hlk]; rfl
           simp only [Option.isSome_none, Bool.not_false, if_true, if_false, Bool.false_eq_true, Py.unwrap, pure, Except.pure,
-            dictSet_absent _ _ _ hab, dictPut_absent _ _ _ hlk]
-          conv in Py.MS.exec py_DSD_ComplexR_canonical_form _ => arg 2; change ofLR { R with NAMES := R.NAMES ++ [(name, c)] } o1
+            en, enm, hnm, dictSet_absent _ _ _ hab, dictPut_absent _ _ _ hlk]
+          have ho1 : ({ o1 with name := name } : LObj) = o1 := by rw [← hnm]
+          conv in Py.MS.exec py_DSD_ComplexR_canonical_form _ => arg 2; change ofLR { R with NAMES := R.NAMES ++ [(name, c)] } ({ o1 with name := name } : LObj)
+          rw [ho1]
           rw [exec_canonical_form, canonicalForm_cached _ o1 c hc1]
           simp only [canonAns, Py.unwrap, pure, Except.pure, InitOk]
           have hm : (ofLR { R with NAMES := R.NAMES ++ [(name, c)] } o1).cls_MEMORY = R.MEMORY.map (fun p => (p.1, refOf p.2)) := rfl
@@ -97,7 +108,7 @@ theorem exec_init (R : LReg) (b : LObj) (seq : List String) (sst : List Char) (n
       rw [(construct_bad_prefix R b.id seq sst (some "") "" mc (Or.inr rfl)).1 rfl]
       simp only [exec_ite, exec_bind, exec_get, exec_pure, exec_lift, exec_monadLift, exec_modify, exec_throw, hn', Bool.false_eq_true, if_false,
         beq_self_eq_true, if_true, InitOk]
-      exact ⟨rfl, rfl, rfl, rfl⟩
+      close_refused
     · have hp' : (pfx == "") = false := by simpa using hp
       obtain ⟨lc, hlc, hdg⟩ := lastChar_eq pfx hp
       cases hd : endsWithDigit pfx with
@@ -106,7 +117,7 @@ theorem exec_init (R : LReg) (b : LObj) (seq : List String) (sst : List Char) (n
         rw [hd] at hdg
         simp only [exec_ite, exec_bind, exec_get, exec_pure, exec_lift, exec_monadLift, exec_modify, exec_throw, hn', Bool.false_eq_true, if_false,
           hp', hlc, hdg, if_true, InitOk]
-        exact ⟨rfl, rfl, rfl, rfl⟩
+        close_refused
       | false =>
         rw [construct_auto R b.id seq sst (some "") pfx mc (Or.inr rfl) hp hd]
         rw [hd] at hdg
@@ -116,13 +127,13 @@ theorem exec_init (R : LReg) (b : LObj) (seq : List String) (sst : List Char) (n
           hp', hlc, hdg, Py.LegI_strNat]
 
         -- the length check
-        by_cases hl : seq.length = sst.length
-        case neg =>
+        by_cases hl : seq.length ≠ sst.length
+        case pos =>
           have hl' : (seq.length != sst.length) = true := by simpa using hl
-          simp only [hl', if_true, exec_throw, hl, ne_eq, not_false_eq_true, InitOk]
-          exact ⟨rfl, rfl, rfl, rfl⟩
+          simp only [hl', if_true, exec_throw, if_pos hl, InitOk]
+          close_refused
         have hl' : (seq.length != sst.length) = false := by simpa using hl
-        simp only [hl', Bool.false_eq_true, if_false, hl, ne_eq, not_true_eq_false]
+        simp only [hl', Bool.false_eq_true, if_false, if_neg hl]
         cases mc with
         | false =>
           simp only [Bool.false_eq_true, if_false, exec_pure, InitOk]
@@ -133,23 +144,25 @@ theorem exec_init (R : LReg) (b : LObj) (seq : List String) (sst : List Char) (n
           rw [exec_canonical_form]
           rcases hcf : (mk0 b.id (pfx ++ toString R.ID) seq sst true).canonicalForm ({ R with ID := R.ID + 1 } : LReg) with ⟨o1, r⟩
           cases r with
-          | error e => simp only [canonAns, InitOk]; exact ⟨rfl, rfl, rfl, rfl⟩
+          | error e => simp only [canonAns, InitOk]; close_refused
           | ok c =>
             have hc1 := canonicalForm_ok _ _ _ _ hcf
             simp only [canonAns]
             have en : (ofLR ({ R with ID := R.ID + 1 } : LReg) o1).cls_NAMES = ({ R with ID := R.ID + 1 } : LReg).NAMES := rfl
             have enm : (ofLR ({ R with ID := R.ID + 1 } : LReg) o1)._name = o1.name := rfl
             have hnm : o1.name = (pfx ++ toString R.ID) := by
-              have := LgL.canonicalForm_name ({ R with ID := R.ID + 1 } : LReg) (mk0 b.id (pfx ++ toString R.ID) seq sst true) o1 (.ok c) hcf
-              exact this
+              have := canonicalForm_name ({ R with ID := R.ID + 1 } : LReg) (mk0 b.id (pfx ++ toString R.ID) seq sst true)
+              rw [hcf] at this; exact this
             simp only [en, enm, hnm, Py.dictHas]
             cases hlk : ({ R with ID := R.ID + 1 } : LReg).NAMES.lookup (pfx ++ toString R.ID) with
-            | some x => simp only [Option.isSome_some, Bool.not_true, Bool.false_eq_true, if_false, if_true, InitOk]; exact ⟨rfl, rfl, rfl, rfl⟩
+            | some x => simp only [Option.isSome_some, Bool.not_true, Bool.false_eq_true, if_false, if_true, InitOk]; close_refused
             | none =>
               have hab : Py.dictHas ({ R with ID := R.ID + 1 } : LReg).NAMES (pfx ++ toString R.ID) = false := by unfold Py.dictHas; rw [hlk]; rfl
               simp only [Option.isSome_none, Bool.not_false, if_true, if_false, Bool.false_eq_true, Py.unwrap, pure, Except.pure,
-                dictSet_absent _ _ _ hab, dictPut_absent _ _ _ hlk]
-              conv in Py.MS.exec py_DSD_ComplexR_canonical_form _ => arg 2; change ofLR { ({ R with ID := R.ID + 1 } : LReg) with NAMES := ({ R with ID := R.ID + 1 } : LReg).NAMES ++ [((pfx ++ toString R.ID), c)] } o1
+                en, enm, hnm, dictSet_absent _ _ _ hab, dictPut_absent _ _ _ hlk]
+              have ho1 : ({ o1 with name := (pfx ++ toString R.ID) } : LObj) = o1 := by rw [← hnm]
+              conv in Py.MS.exec py_DSD_ComplexR_canonical_form _ => arg 2; change ofLR { ({ R with ID := R.ID + 1 } : LReg) with NAMES := ({ R with ID := R.ID + 1 } : LReg).NAMES ++ [((pfx ++ toString R.ID), c)] } ({ o1 with name := (pfx ++ toString R.ID) } : LObj)
+              rw [ho1]
               rw [exec_canonical_form, canonicalForm_cached _ o1 c hc1]
               simp only [canonAns, Py.unwrap, pure, Except.pure, InitOk]
               have hm : (ofLR { ({ R with ID := R.ID + 1 } : LReg) with NAMES := ({ R with ID := R.ID + 1 } : LReg).NAMES ++ [((pfx ++ toString R.ID), c)] } o1).cls_MEMORY = ({ R with ID := R.ID + 1 } : LReg).MEMORY.map (fun p => (p.1, refOf p.2)) := rfl
